@@ -46,7 +46,9 @@ ActSets == { <<>>, <<FeeAct(<<Bps(1000, "F1")>>)>> }
 OddActs == { <<SwapAct>>,
              \* an identifier without a controller carrying attributes another controller would accept
              <<[id |-> "SWAP", at |-> "FEE", fees |-> <<Bps(1000, "F1")>>]>>, <<[id |-> "UNSUPPORTED", at |-> "FEE", fees |-> <<Bps(1000, "F1")>>]>>,
-             <<[id |-> "A7", at |-> "FEE", fees |-> <<Bps(1000, "F1")>>]>>, <<[id |-> "UNSUPPORTED", at |-> "FEE", fees |-> <<>>]>>, <<[id |-> "A7", at |-> "FEE", fees |-> <<>>]>>,
+             <<[id |-> "A7", at |-> "FEE", fees |-> <<Bps(1000, "F1")>>]>>,
+             \* numbers that are valid PROTOCOL ids but no action ids
+             <<[id |-> "A3", at |-> "FEE", fees |-> <<Bps(1000, "F1")>>]>>, <<[id |-> "A4", at |-> "FEE", fees |-> <<Bps(1000, "F1")>>]>>, <<[id |-> "UNSUPPORTED", at |-> "FEE", fees |-> <<>>]>>, <<[id |-> "A7", at |-> "FEE", fees |-> <<>>]>>,
              <<[id |-> "N2", at |-> "FEE", fees |-> <<>>]>>, <<[id |-> "AUNKNOWN", at |-> "FEE", fees |-> <<>>]>>,
              \* several different identifiers each repeated (which one the refusal names must not depend on map order)
              <<FeeAct(<<>>), [id |-> "SWAP", at |-> "FEE", fees |-> <<>>], [id |-> "SWAP", at |-> "FEE", fees |-> <<>>], FeeAct(<<>>)>>,
